@@ -17,6 +17,7 @@ window of one; the statements the property lists must fail with Illegal function
 SAVE ,P must succeed and reload; RUN must behave as the unprotected original.
 """
 import os
+import struct
 import shutil
 import itertools
 import logging
@@ -133,6 +134,9 @@ def _make_mount(base):
         s.close()
     with open(os.path.join(mount, 'M.BAS'), 'wb') as f:
         f.write(b'\r\n'.join(MERGE_FILE) + b'\r\n\x1a')
+    with open(os.path.join(mount, 'BL.BIN'), 'wb') as f:
+        # memory image for the data segment, offset 1450 (the protection flag), one zero byte
+        f.write(b'\xfd' + struct.pack('<HHH', 0x13ad, 1450, 1) + b'\0\x1a')
     keep = {}
     for fn in os.listdir(mount):
         with open(os.path.join(mount, fn), 'rb') as f:
@@ -252,7 +256,7 @@ def _keyword(stmt):
     return w.upper() if not w[:1].isdigit() else 'LINE-ENTRY'
 
 
-def _run_sequence(part, mount, keep, base, ref, stmts, ctx, must_ifc=False):
+def _run_sequence(part, mount, keep, base, ref, stmts, ctx, must_ifc=False, must_from=0):
     """Execute a sequence of direct-mode lines in a fresh protected session."""
     trap = ctx == 'trap'
     s, lpt = _session(mount, base, trap)
@@ -310,7 +314,7 @@ def _run_sequence(part, mount, keep, base, ref, stmts, ctx, must_ifc=False):
             outcome = 'ifc' if r.err == 5 else ('err%s' % r.err if r.err is not None else ('exit' if r.exit else 'ok'))
             part.classes.add('%s/%s/%s' % (kw, ctx, outcome if outcome in ('ifc', 'ok', 'exit') else 'other-error'))
             part.outcome(outcome)
-            if must_ifc and not trap and r.err != 5:
+            if must_ifc and not trap and r.err != 5 and stmts.index(stmt) >= must_from:
                 part.violation(
                     'must-fail/%s/not-illegal-function-call' % kw,
                     'context %s: %r on a protected program gave %s (output %r), expected Illegal function call' % (
@@ -365,6 +369,27 @@ def work_pairs(shard):
     return part
 
 
+# memory access must stay refused whatever segment an earlier DEF SEG left behind (segments that alias
+# the data segment 13ADh reach the program text at shifted offsets)
+SEGMENTS = ['DEF SEG', 'DEF SEG=0', 'DEF SEG=&HB800', 'DEF SEG=&H13AC', 'DEF SEG=&H12AD', 'DEF SEG=&H13AE', 'DEF SEG=&HFFFF',
+            'DEF SEG=&H13AD']
+MEMORY_ACCESS = ['PRINT PEEK(0)', 'X=PEEK(4736)', 'PRINT PEEK(8816)', 'BSAVE "B1",0,1000', 'BSAVE "B2",4730,200',
+                 'POKE 1450,0', 'POKE 1466,0', 'BLOAD "BL.BIN"', 'BLOAD "BL.BIN",1450']
+
+
+def work_segments(shard):
+    part = Partial()
+    with H.Scratch() as base:
+        mount, keep, ref = _make_mount(base)
+        for seg, acc in shard:
+            for ctx in ('alone', 'colon', 'ran'):
+                _run_sequence(part, mount, keep, base, ref, [seg, acc], ctx, must_ifc=True, must_from=1)
+                # and afterwards the program is still protected
+                _run_sequence(part, mount, keep, base, ref, [seg, acc, 'LIST'], ctx, must_ifc=True, must_from=1)
+    part.sample({'segments': list(shard[0])})
+    return part
+
+
 def work_savep(shard):
     """SAVE ,P succeeds and the saved file reloads and runs like the original."""
     part = Partial()
@@ -415,6 +440,9 @@ def legs(ctx):
                 2 if ctx.quick else 4)),
         Leg('pairs', list(chunked([(a, b) for a in READERS for b in READERS], 30)), work_pairs, exhaustive=True,
             bound='all %d ordered pairs of the %d-statement reader alphabet x 2 contexts' % (len(READERS) ** 2, len(READERS))),
+        Leg('segments', list(chunked([(a, b) for a in SEGMENTS for b in MEMORY_ACCESS], 8)), work_segments, exhaustive=True,
+            bound='%d DEF SEG settings (default, unrelated, and segments aliasing the data segment) x %d PEEK / POKE / BSAVE / '
+                  'BLOAD statements x 3 contexts: Illegal function call, and LIST still refused' % (len(SEGMENTS), len(MEMORY_ACCESS))),
         Leg('save-p', [0], work_savep, exhaustive=True, bound='SAVE ,P round trip in 2 contexts'),
     ]
     return out
@@ -426,5 +454,8 @@ def replay(ctx, leg, case):
         mount, keep, ref = _make_mount(base)
         stmts = case['statements']
         must = leg == 'targeted' and all(s in MUST_IFC for s in stmts)
-        _run_sequence(part, mount, keep, base, ref, stmts, case['context'], must_ifc=must)
+        if leg == 'segments':
+            _run_sequence(part, mount, keep, base, ref, stmts, case['context'], must_ifc=True, must_from=1)
+        else:
+            _run_sequence(part, mount, keep, base, ref, stmts, case['context'], must_ifc=must)
     return part
